@@ -262,6 +262,12 @@ func (g *gctx) genExpr(depth int) *Node {
 			}
 			n.Kids = append(n.Kids, kid)
 		}
+		if g.p.State && g.p.W[KStC] > 0 && g.pct(25) {
+			// a zero-width state change at the head of the sequence: its effect must vanish when a later item fails
+			st := g.newNode(KStC)
+			st.Cid = g.newBlock(KStC)
+			n.Kids = append([]*Node{st}, n.Kids...)
+		}
 		return n
 	case KAlt:
 		n := g.newNode(KAlt)
@@ -618,7 +624,32 @@ func GenGrammar(p *Profile, seed int64) (rules []*Rule, blocks map[int]*Block, g
 	if p.LR && g.pct(85) {
 		g.genLRShape(rules)
 	}
+	for _, r := range rules {
+		r.Expr = normalize(r.Expr)
+	}
 	return rules, g.blocks, g
+}
+
+// normalize rewrites the shapes the grammar front-end can never produce from text:
+// an empty sequence is the empty literal, a one-element sequence or choice is its element.
+func normalize(n *Node) *Node {
+	for i, k := range n.Kids {
+		n.Kids[i] = normalize(k)
+	}
+	switch n.K {
+	case KSeq:
+		if len(n.Kids) == 0 {
+			return &Node{K: KLit, ID: n.ID, Lit: ""}
+		}
+		if len(n.Kids) == 1 {
+			return n.Kids[0]
+		}
+	case KAlt:
+		if len(n.Kids) == 1 {
+			return n.Kids[0]
+		}
+	}
+	return n
 }
 
 // PrepareLR runs the real builder.PrepareGrammar to obtain leader/leftRecursive flags.
@@ -744,4 +775,76 @@ func ClassesOf(p *Profile, seed int64, idx int) []string {
 		})
 	}
 	return out
+}
+
+// ---------- small-scope exhaustive enumeration ----------
+// EnumExprs returns all expression trees up to the given depth over the leaves
+// 'a', 'b', . and the operators seq/alt (binary), * + ? & !.
+func EnumExprs(depth int) []*Node {
+	leaves := func() []*Node {
+		return []*Node{{K: KLit, Lit: "a"}, {K: KLit, Lit: "b"}, {K: KAny}}
+	}
+	if depth <= 1 {
+		return leaves()
+	}
+	sub := EnumExprs(depth - 1)
+	out := leaves()
+	for _, k := range []Kind{KStar, KPlus, KOpt, KAnd, KNot} {
+		for _, e := range sub {
+			out = append(out, &Node{K: k, Kids: []*Node{e}})
+		}
+	}
+	for _, k := range []Kind{KSeq, KAlt} {
+		for _, a := range sub {
+			for _, b := range sub {
+				out = append(out, &Node{K: k, Kids: []*Node{a, b}})
+			}
+		}
+	}
+	return out
+}
+
+func cloneTree(n *Node, id *int) *Node {
+	*id++
+	c := *n
+	c.ID = *id
+	c.Kids = make([]*Node, len(n.Kids))
+	for i, k := range n.Kids {
+		c.Kids[i] = cloneTree(k, id)
+	}
+	return &c
+}
+
+// EnumInputs: all strings over {a,b} up to length n.
+func EnumInputs(n int) [][]byte {
+	out := [][]byte{{}}
+	prev := [][]byte{{}}
+	for l := 1; l <= n; l++ {
+		var cur [][]byte
+		for _, p := range prev {
+			for _, ch := range []byte("ab") {
+				cur = append(cur, append(append([]byte{}, p...), ch))
+			}
+		}
+		out = append(out, cur...)
+		prev = cur
+	}
+	return out
+}
+
+// EnumCases: the idx-th expression (stride/offset chosen by the caller) as a one-rule grammar on all inputs.
+func EnumCases(exprs []*Node, idx int, inputs [][]byte, t Tmpl) []*Case {
+	id := 0
+	e := cloneTree(exprs[idx], &id)
+	rules := []*Rule{{Name: "S", Expr: e}}
+	wf := WellFormed(rules)
+	var cs []*Case
+	for i, in := range inputs {
+		o := Opts{Recover: true}
+		if !wf {
+			o.MaxExpr = 200
+		}
+		cs = append(cs, &Case{ID: fmt.Sprintf("enum-%d/%d", idx, i), Tmpl: t, Opts: o, Rules: rules, Blocks: map[int]*Block{}, Input: in, WF: wf})
+	}
+	return cs
 }
